@@ -19,26 +19,54 @@ RULE = (
     "Cases = synthesized PCM recording (rate from 8..44100, width 1/2/4, 1-4 channels, window of 1..12 "
     "samples, loud/quiet windows built from a validity pattern biased to the split parameters, optional "
     "partial last window, channel-selection mode) x (min,max,silence) in windows passed as mid-window "
-    "durations x drop/strict x entry point (split(bytes), split(AudioRegion), AudioRegion.split). Oracle: "
+    "durations x drop/strict x entry point (split(bytes), split(AudioRegion), AudioRegion.split, or a raw/wav file read lazily or eagerly). Oracle: "
     "expected regions = reference segmentation of the per-window decisions of the exact energy oracle; "
     "each region's bytes == the input bytes of that window range, sr/sw/ch == input's, start == s*B/sr "
     "(1e-6 samples), |(end-start)-duration| <= 2ulp, duration == len/sr, regions strictly ordered and "
     "disjoint. Non-trivial = at least one region and the format is not mono/16-bit/16 kHz."
 )
 MUST_HIT = ["region_with_partial_last_window", "ch>=3", "sw1", "sw4", "window_of_1_sample",
-            "entry_bytes", "entry_region_fn", "entry_region_method", "empty_input"]
+            "entry_bytes", "entry_region_fn", "entry_region_method", "entry_raw_lazy_file", "entry_wav_lazy_file",
+            "entry_wav_file", "empty_input"]
 ASSUMPTIONS = [
     "exact energy oracle (vf/oracles.energy_db); synthesized windows lie >= 3 dB from the threshold (self-checked)",
     "reference segmentation (judged on its own by C04)",
 ]
 BOUNDS = {"quick": dict(n=500, maxwin=30), "thorough": dict(n=6000, maxwin=120)}
-ENTRIES = ("bytes", "region_fn", "region_method")
+ENTRIES = ("bytes", "region_fn", "region_method", "raw_lazy_file", "wav_lazy_file", "wav_file")
+
+
+_ctr = [0]
 
 
 def run_split(entry, data, rec, kw):
     sr, sw, ch = rec["sr"], rec["sw"], rec["ch"]
     if entry == "bytes":
         return auditok.split(data, sampling_rate=sr, sample_width=sw, channels=ch, **kw)
+    if entry in ("raw_lazy_file", "wav_lazy_file", "wav_file"):
+        import os
+        import wave
+
+        from ..common import tmpdir
+
+        _ctr[0] += 1
+        path = os.path.join(tmpdir(), f"c05_{_ctr[0]}." + ("raw" if entry.startswith("raw") else "wav"))
+        try:
+            if entry.startswith("raw"):
+                with open(path, "wb") as fp:
+                    fp.write(data)
+                return list(auditok.split(path, sampling_rate=sr, sample_width=sw, channels=ch, large_file=True, **kw))
+            with wave.open(path, "wb") as fp:
+                fp.setframerate(sr)
+                fp.setsampwidth(sw)
+                fp.setnchannels(ch)
+                fp.writeframes(data)
+            return list(auditok.split(path, large_file=entry == "wav_lazy_file", **kw))
+        finally:
+            try:
+                os.remove(path)
+            except OSError:
+                pass
     region = auditok.AudioRegion(data, sr, sw, ch)
     if entry == "region_fn":
         return auditok.split(region, **kw)
